@@ -218,6 +218,8 @@ dLUMemInit(fact_t fact, void *work, int_t lwork, int m, int n, int_t annz,
 	//nzlmax = SUPERLU_MAX(1, fill_ratio/4.) * annz;
 
 	if ( lwork == -1 ) {
+	    SUPERLU_FREE(Glu->expanders);
+	    Glu->expanders = NULL;
 	    return ( GluIntArray(n) * iword + TempSpace(m, panel_size)
 		    + (nzlmax+nzumax)*iword + (nzlumax+nzumax)*dword + n );
         } else {
@@ -276,6 +278,15 @@ dLUMemInit(fact_t fact, void *work, int_t lwork, int m, int n, int_t annz,
 	    nzlmax /= 2;
 	    if ( nzlumax < annz ) {
 		printf("Not enough memory to perform factorization.\n");
+		if ( Glu->MemModel == SYSTEM ) {
+		    SUPERLU_FREE(xsup);
+		    SUPERLU_FREE(supno);
+		    SUPERLU_FREE(xlsub);
+		    SUPERLU_FREE(xlusup);
+		    SUPERLU_FREE(xusub);
+		}
+		SUPERLU_FREE(Glu->expanders);
+		Glu->expanders = NULL;
 		return (dmemory_usage(nzlmax, nzumax, nzlumax, n) + n);
 	    }
 #if ( PRNTlevel >= 1)
@@ -303,6 +314,8 @@ dLUMemInit(fact_t fact, void *work, int_t lwork, int m, int n, int_t annz,
 	nzlumax  = Glu->nzlumax;
 	
 	if ( lwork == -1 ) {
+	    SUPERLU_FREE(Glu->expanders);
+	    Glu->expanders = NULL;
 	    return ( GluIntArray(n) * iword + TempSpace(m, panel_size)
 		    + (nzlmax+nzumax)*iword + (nzlumax+nzumax)*dword + n );
         } else if ( lwork == 0 ) {
@@ -337,8 +350,10 @@ dLUMemInit(fact_t fact, void *work, int_t lwork, int m, int n, int_t annz,
     Glu->nzlumax = nzlumax;
     
     info = dLUWorkInit(m, n, panel_size, iwork, dwork, Glu);
-    if ( info )
+    if ( info ) {
+	dLUMemFree(fact, Glu);
 	return ( info + dmemory_usage(nzlmax, nzumax, nzlumax, n) + n);
+    }
     
     ++Glu->num_expansions;
     return 0;
@@ -391,6 +406,7 @@ dLUWorkInit(int m, int n, int panel_size, int **iworkptr,
     }
     if ( ! *dworkptr ) {
 	fprintf(stderr, "malloc fails for local dworkptr[].");
+	if ( Glu->MemModel == SYSTEM ) SUPERLU_FREE (*iworkptr);
 	return (isize + dsize + n);
     }
 	
@@ -428,6 +444,28 @@ void dLUWorkFree(int *iwork, double *dwork, GlobalLU_t *Glu)
     }
     
     SUPERLU_FREE (Glu->expanders);	
+    Glu->expanders = NULL;
+}
+
+/*! \brief Free the storage for L and U recorded in Glu when the factorization
+ * is abandoned (out of memory) before L and U are formed.  The arrays of a
+ * previous factorization (fact == SamePattern_SameRowPerm) and a user-supplied
+ * work[] array belong to the caller.
+ */
+void dLUMemFree(fact_t fact, GlobalLU_t *Glu)
+{
+    if ( Glu->MemModel == SYSTEM && fact != SamePattern_SameRowPerm ) {
+	SUPERLU_FREE (Glu->xsup);
+	SUPERLU_FREE (Glu->supno);
+	SUPERLU_FREE (Glu->xlsub);
+	SUPERLU_FREE (Glu->xlusup);
+	SUPERLU_FREE (Glu->xusub);
+	SUPERLU_FREE (Glu->lsub);
+	SUPERLU_FREE (Glu->lusup);
+	SUPERLU_FREE (Glu->usub);
+	SUPERLU_FREE (Glu->ucol);
+    }
+    SUPERLU_FREE (Glu->expanders);
     Glu->expanders = NULL;
 }
 
